@@ -781,9 +781,7 @@ func (wf *WALFileType) SyncWAL(walRefresh, primaryRefresh time.Duration, walRota
 
 // RequestFlush requests WAL Flush to the WAL writer goroutine
 // if it exists, or just does the work in the same goroutine otherwise.
-// The function blocks if there are no current queued flushes, and
-// returns if there is already one queued which will handle the data
-// present in the write channel, as it will flush as soon as possible.
+// The function blocks until a flush that started after the call has completed.
 func (wf *WALFileType) RequestFlush() {
 	if !haveWALWriter {
 		if err := wf.FlushToWAL(); err != nil {
@@ -791,10 +789,8 @@ func (wf *WALFileType) RequestFlush() {
 		}
 		return
 	}
-	// if there's already a queued flush, no need to queue another
-	if len(wf.txnPipe.flushChannel) > 0 {
-		return
-	}
+	// always queue a request of our own and wait for it: a flush that is already queued may be
+	// served only after this call would have returned, i.e. before the caller's data is synced
 	f := make(chan struct{})
 	wf.txnPipe.flushChannel <- f
 	<-f
